@@ -265,6 +265,11 @@ class FermionicArray(AbelianArray):
         """Clip the values in the array, with lazy phases multiplied in."""
         return AbelianArray.clip(self.phase_sync(), a_min, a_max)
 
+    def item(self):
+        """Convert a scalar fermionic array to a scalar, with lazy phases
+        multiplied in."""
+        return AbelianArray.item(self.phase_sync())
+
     def _map_blocks(self, fn_block=None, fn_sector=None):
         if fn_sector is not None:
             # need to update phase keys as well, n.b. phases of sectors that
